@@ -109,6 +109,13 @@ func c09Mutate(t *rapid.T, g *vocab.Gen, y reflect.Value, f vocab.Field) string 
 	switch f.Kind {
 	case vocab.KNLV:
 		n := fv.Interface().(ap.NaturalLanguageValues)
+		seen := map[ap.LangRef]bool{}
+		for _, e := range n {
+			if seen[e.Ref] {
+				return "" // equality of language lists is only specified for lists without repeated tags (C19): no witness
+			}
+			seen[e.Ref] = true
+		}
 		i := rapid.IntRange(0, len(n)-1).Draw(t, "nlentry")
 		n[i].Value = append(append(ap.Content{}, n[i].Value...), " (changed)"...)
 		return "text"
